@@ -284,6 +284,38 @@ fn run_all(e: &mut Enumerate, thorough: bool) {
     }
 }
 
+/// vector types whose entries are vector types themselves (the layouts of the universe do not model
+/// them): the rendering of the outer number is the grammar applied to the renderings of the inner ones
+fn vector_in_vector(st: &mut Stats) {
+    use nalgebra::{Const, DVector, Dyn, SVector};
+    use num_dual::*;
+    let inner = |re: f64, g: Option<[f64; 2]>| DualSVec64::<2>::new(re, g.map(|g| Derivative::some(SVector::from(g))).unwrap_or_else(Derivative::none));
+    let cases: Vec<(DualSVec64<2>, Option<[DualSVec64<2>; 2]>)> = vec![
+        (inner(1.5, Some([0.25, -2.0])), Some([inner(-0.5, Some([3.0, 4.0])), inner(2.0, None)])),
+        (inner(1.5, None), Some([inner(0.0, Some([1.0, 0.0])), inner(-0.0, Some([0.0, 1.0]))])),
+        (inner(-3.0, Some([1.0, 1.0])), None),
+    ];
+    for (k, (re, eps)) in cases.into_iter().enumerate() {
+        let x = DualVec::<DualSVec64<2>, f64, Const<2>>::new(re.clone(), eps.clone().map(|e| Derivative::some(SVector::from(e))).unwrap_or_else(Derivative::none));
+        let xd = DualVec::<DualSVec64<2>, f64, Dyn>::new(re.clone(), eps.clone().map(|e| Derivative::some(DVector::from_vec(e.to_vec()))).unwrap_or_else(Derivative::none));
+        let want = match &eps {
+            Some(e) => format!("{} + [{}, {}]ε", re, e[0], e[1]),
+            None => format!("{}", re),
+        };
+        for (name, got) in [("DualVec<DualSVec64<2>,2>", guarded(|| x.to_string())), ("DualVec<DualSVec64<2>,Dyn>", guarded(|| xd.to_string()))] {
+            st.evaluations += 1;
+            st.transitions += 1;
+            st.state(hash64(&("vector-in-vector", name, k)));
+            st.nontrivial(hash64(&("vector-in-vector", name, k)));
+            match got {
+                Ok(g) if g == want => {}
+                Ok(g) => st.violation(Violation { sig: format!("display {name} nested grammar"), case: json!({"type": name, "case": k}), what: format!("rendered {g:?}, the grammar applied to the inner renderings gives {want:?}") }),
+                Err(m) => st.violation(Violation { sig: format!("display {name} panic"), case: json!({"type": name, "case": k}), what: format!("panicked: {m}") }),
+            }
+        }
+    }
+}
+
 fn main() {
     quiet_panics();
     let cli = cli();
@@ -294,6 +326,7 @@ fn main() {
     if let Err(m) = guarded(|| run_all(&mut e, thorough)) {
         e.stats.violation(Violation { sig: "display panic".into(), case: json!({}), what: format!("panicked: {m}") });
     }
+    vector_in_vector(e.stats);
     let shapes = std::mem::take(&mut e.shapes);
     if let Some(path) = &cli.replay {
         let v = read_replay(path);
